@@ -15,7 +15,11 @@
 EXTENDS Counting, Json, TLC, FiniteSets, Sequences
 CONSTANTS Sample, Seed, K
 VARIABLE f
-Tag(g) == LET s == IF g = {} THEN 0 ELSE CHOOSE m \in g : \A x \in g : x <= m IN (Cardinality(g) * 7 + s * 13 + Seed) % Sample
+(* sampling by the rank of the function among all functions (its truth table read as a binary number): every residue class *)
+(* modulo Sample is inhabited, whatever the seed                                                                         *)
+Tag(g) == LET RECURSIVE Rank(_)
+              Rank(h) == IF h = {} THEN 0 ELSE LET a == CHOOSE x \in h : TRUE IN 2 ^ a + Rank(h \ {a})
+          IN ((Rank(g) % 251) * 13 + (Rank(g) \div 251) + Seed) % Sample
 Perms == {p \in [1 .. NV -> Vars] : \A i, j \in 1 .. NV : i # j => p[i] # p[j]}
 Rnd(a, b, c, d, m) == (a * 31 + b * 17 + c * 7 + d * 3 + Seed * 11 + (a * b + c) * 5 + d * d) % m
 Kinds == <<"real", "complex", "eu", "ff", "bool", "poly">>
